@@ -16,7 +16,7 @@
 #define MAXANOM 64
 #define MAXFILES 8
 
-enum { T_FREE = 0, T_RUN, T_SLEEP, T_LOCK, T_JOIN, T_DONE };
+enum { T_FREE = 0, T_RUN, T_SLEEP, T_LOCK, T_JOIN, T_DONE, T_WAITREL };
 
 typedef struct {
 	const void *addr;
@@ -33,6 +33,7 @@ typedef struct {
 	lk_t *wlock;
 	int wmode;                 /* 1 excl, 2 shared */
 	int wjoin;
+	const void *wrel;      /* T_WAITREL: the lock whose next release (by another thread) wakes this thread */
 	pthread_t real;
 	pthread_cond_t cv;
 	vf_fn fn;
@@ -84,6 +85,8 @@ static uint32_t sched_rng;
 static unsigned long dp_index, next_preempt_at;
 static unsigned preempt_pick;
 static unsigned long naps_taken;
+static int forced_next = -1;      /* a release-waiter that was just woken: it runs first (vf_wait_release) */
+static int cancel_waits;
 static int have_preempt;
 static unsigned preempt_taken;
 
@@ -148,6 +151,7 @@ static void describe_threads(char *buf, size_t n) {
 		case T_SLEEP: st = "sleeping"; break;
 		case T_LOCK: st = "blocked-on-lock"; break;
 		case T_JOIN: st = "blocked-in-join"; break;
+		case T_WAITREL: st = "waiting-for-a-release"; break;
 		case T_DONE: continue;
 		}
 		o += snprintf(buf + o, n - o, "[t%d %s", i, st);
@@ -271,6 +275,12 @@ static int pick(int me) {
 			if (time_cap && now_us > time_cap) fatal("hang");
 			continue;
 		}
+		if (forced_next >= 0) {
+			int f = forced_next;
+			forced_next = -1;
+			for (int i = 0; i < n; i++)
+				if (cand[i] == f) { dp_index++; if (f != me) preempt_taken++; return f; }
+		}
 		int def = -1;
 		for (int i = 0; i < n; i++)
 			if (cand[i] == me) def = me;
@@ -366,6 +376,8 @@ void vf_world_init(const uint8_t *s, size_t slen) {
 	dp_index = 0;
 	preempt_taken = 0;
 	naps_taken = 0;
+	forced_next = -1;
+	cancel_waits = 0;
 	have_preempt = 0;
 	if (slen > 0 && (s[0] & 0x80)) {
 		sched_random = 1;
@@ -588,9 +600,36 @@ static int note_released(int me, lk_t *l) {
 			}
 			t->nheld--;
 			if (observer) observer(me, l->addr, 0, mode);
+			/* threads waiting for a release of this lock run at the release point */
+			for (int i = 0; i < nth; i++)
+				if (i != me && th[i].state == T_WAITREL && th[i].wrel == l->addr) {
+					th[i].state = T_RUN;
+					if (forced_next < 0) forced_next = i;
+				}
 			return mode;
 		}
 	return 0;
+}
+
+int vf_wait_release(const void *lock) {
+	int me = self_checked();
+	pthread_mutex_lock(&G);
+	if (cancel_waits) { pthread_mutex_unlock(&G); return -1; }
+	th[me].state = T_WAITREL;
+	th[me].wrel = lock;
+	reschedule(me);
+	int r = cancel_waits ? -1 : 0;
+	pthread_mutex_unlock(&G);
+	return r;
+}
+
+void vf_cancel_release_waits(void) {
+	self_checked();
+	pthread_mutex_lock(&G);
+	cancel_waits = 1;
+	for (int i = 0; i < nth; i++)
+		if (th[i].state == T_WAITREL) th[i].state = T_RUN;
+	pthread_mutex_unlock(&G);
 }
 
 int vf_pthread_mutex_init(pthread_mutex_t *m, const pthread_mutexattr_t *a) {
